@@ -203,11 +203,15 @@ package pcs
 //@   ensures err == nil ==> result0 != nil && ufb("tcbSigOK", old(bytesId(sq.EnclaveIdentity)), old(sq.Signature), pk) && GSigTrue == old(GSigTrue) + 1
 //@   ensures err != nil ==> GSigTrue <= old(GSigTrue) + 1 && GSigTrue >= old(GSigTrue)
 
+//@ ghost var GChainOK int
+
 //@ func TCBBundle.getPublicKey
 //@   props C18
 //@   requires bnd != nil
 //@   ensures err != nil ==> result0 == nil
 //@   ensures err == nil ==> result0 != nil
+//@   ensures err == nil ==> GChainOK > old(GChainOK)
+//@   note the TCB signing key is handed out only after the bundle's certificate chain verified IN THIS CALL, i.e. at the time this verification is made for: nothing remembered from an earlier verification of the same bundle object stands in for it, so collateral whose signing certificate has expired since is rejected (seed C18_j cached the key on the bundle)
 //@   note exactly two certificates, a chain verified against the pinned Intel root at the given time, the bundle's root equal to the chain's root; X.509 verification is an opaque callee
 
 //@ func TCBBundle.verifyQEIdentity
